@@ -35,8 +35,9 @@ Flag(ok, prop, pred, r, tags) ==
 
 \* deviation tags: predicates over one line that explain a failure by a listed known finding
 Tags(r) ==
-  IF r.c = "balance" /\ r.m = "transferX" /\ r.cls = "holder-or-alphabet" /\ "KEY" \in ToSet(r.S) /\ "ALPHA" \notin ToSet(r.S)
-  THEN {"DocWiderThanCode"} ELSE {}
+  (IF r.c = "balance" /\ r.m = "transferX" /\ r.cls = "holder-or-alphabet" /\ "KEY" \in ToSet(r.S) /\ "ALPHA" \notin ToSet(r.S)
+   THEN {"DocWiderThanCode"} ELSE {})
+  \cup (IF r.c = "neofs" /\ r.m = "setConfig" /\ r.v = "votes" /\ "M1" \notin ToSet(r.S) THEN {"StrangerVotes"} ELSE {})
 
 KindOf(r) ==
   IF r.act = "verify" THEN (IF VerifyAccepts(r.cls, ToSet(r.S)) THEN "accept" ELSE "reject")
@@ -74,6 +75,7 @@ Judge(r) ==
                              /\ Flag(r.safe = r.msafe, "DRIFT", "SafeFlag", r, {})
     [] r.act = "uncovered" -> Flag(r.valid, "DRIFT", "ManifestVsConfig", r, {})
     [] r.act = "missing"  -> Flag(FALSE, "DRIFT", "MissingMethod", r, {})
+    [] r.act = "setupfail" -> Flag(FALSE, "DRIFT", "SetupFailed", r, {})
     [] OTHER -> TRUE      \* reset, setup
 
 TraceInit ==
